@@ -2,6 +2,7 @@ package sym
 
 import (
 	"fmt"
+	"go/types"
 	"os"
 	"sync/atomic"
 	"time"
@@ -560,17 +561,33 @@ func sext64(v uint64, w int) int64 {
 	return int64(v)
 }
 
-func (in *Interp) evalObserved(v Val) string {
+func (in *Interp) evalObserved(iv Val) string {
+	v := iv
+	var typ types.Type
+	if f, ok := iv.(Iface); ok {
+		v, typ = f.V, f.T
+	}
 	switch x := v.(type) {
 	case *smt.Term:
+		var val uint64
 		if x.IsConst() {
-			return show(x)
+			val = x.Val
+		} else {
+			vals, ok := in.msol().Values([]*smt.Term{x})
+			if !ok {
+				return "?"
+			}
+			val = vals[0]
 		}
-		vals, ok := in.msol().Values([]*smt.Term{x})
-		if ok {
-			return fmt.Sprint(vals[0])
+		if x.Sort.K == smt.KBool {
+			return fmt.Sprint(val == 1)
 		}
-		return "?"
+		if typ != nil {
+			if _, sgn, ok := intInfo(typ); ok && sgn {
+				return fmt.Sprint(sext64(val, x.Sort.W))
+			}
+		}
+		return fmt.Sprint(val)
 	case Str:
 		if x.B == nil {
 			return x.S
